@@ -181,4 +181,71 @@ theorem split_append_sep (a b : Bytes) (c : UInt8) (init : List Bytes) (last : B
             rw [split]; simp [hx, this]
           simpa using e1
 
+/-! ### terminated byte strings (every line ends with `\n`) -/
+
+/-- the byte string is empty or ends with `\n`: every line in it is terminated -/
+def Terminated (s : Bytes) : Prop := s = [] ∨ s.getLast? = some 10
+
+theorem cut_eq_append {s : Bytes} {c : UInt8} {l r : Bytes} (h : cut s c = some (l, r)) : s = l ++ c :: r := by
+  induction s generalizing l with
+  | nil => simp [cut] at h
+  | cons b rest ih =>
+    unfold cut at h
+    by_cases hb : (b == c) = true
+    · simp [hb] at h; obtain ⟨rfl, rfl⟩ := h
+      have : b = c := by simpa using hb
+      simp [this]
+    · simp [hb] at h
+      cases hc : cut rest c with
+      | none => simp [hc] at h
+      | some p =>
+        obtain ⟨l', r'⟩ := p
+        simp [hc] at h
+        obtain ⟨rfl, rfl⟩ := h
+        simp [← ih hc]
+
+theorem cut_some_of_mem {s : Bytes} {c : UInt8} (h : c ∈ s) : ∃ l r, cut s c = some (l, r) := by
+  induction s with
+  | nil => simp at h
+  | cons b rest ih =>
+    unfold cut
+    by_cases hb : (b == c) = true
+    · simp [hb]
+    · simp only [hb]
+      have hne : c ≠ b := by intro e; apply hb; simp [e]
+      have : c ∈ rest := by
+        rcases List.mem_cons.mp h with e | e
+        · exact absurd e hne
+        · exact e
+      obtain ⟨l, r, hlr⟩ := ih this
+      simp [hlr]
+
+theorem getLast?_append_ne {α} (t r : List α) (hr : r ≠ []) : (t ++ r).getLast? = r.getLast? := by
+  rw [List.getLast?_append]
+  cases h : r.getLast? with
+  | none => exact absurd (List.getLast?_eq_none_iff.mp h) hr
+  | some a => rfl
+
+theorem Terminated.of_suffix {s r : Bytes} (h : Terminated s) (hs : r <:+ s) : Terminated r := by
+  by_cases hr : r = []
+  · left; exact hr
+  · right
+    obtain ⟨t, rfl⟩ := hs
+    rcases h with h | h
+    · simp at h; exact absurd h.2 hr
+    · rw [getLast?_append_ne _ _ hr] at h; exact h
+
+theorem Terminated.cut {s : Bytes} (h : Terminated s) (hne : s ≠ []) :
+    ∃ line rest, cut s 10 = some (line, rest) ∧ Terminated rest := by
+  rcases h with h | h
+  · exact absurd h hne
+  · have hm : (10 : UInt8) ∈ s := List.mem_of_getLast? h
+    obtain ⟨l, r, hlr⟩ := cut_some_of_mem hm
+    refine ⟨l, r, hlr, Terminated.of_suffix (.inr h) ?_⟩
+    have := cut_eq_append hlr
+    exact ⟨l ++ [10], by simp [this]⟩
+
+theorem Terminated.drop {s : Bytes} (h : Terminated s) (n : Nat) : Terminated (s.drop n) :=
+  h.of_suffix (List.drop_suffix n s)
+
 end Pandora.Proofs.C13
